@@ -20,7 +20,7 @@ Definition run_s (ops : list sop) : list mout := run interp_script prog_of_scrip
 
 Definition agree (c : case) : bool := admits_all (run_s (fst c)) (snd c).
 
-Definition monitor (c : case) : bool := monitor_from interp_script [] (fst c) (snd c).
+Definition monitor (c : case) : bool := monitor_from interp_script prog_of_script [] (fst c) (snd c).
 
 Definition disagreeing (cs : list case) : list Z := failing agree cs.
 Definition monitor_failing (cs : list case) : list Z := failing monitor cs.
